@@ -427,8 +427,6 @@ fn c04_v311_publish_struct() {
             assert!(qos <= 2, "[C04] accepted PUBLISH has QoS 0..2");
             if qos > 0 {
                 assert!(p.packet_id() != Some(0), "[C04] accepted PUBLISH with QoS>0 has a non-zero packet identifier");
-            } else {
-                assert!(flags & 0x08 == 0, "[C04] accepted QoS0 PUBLISH has DUP clear");
             }
             let enc = p.to_continuous_buffer();
             assert!(p.size() == enc.len(), "[C04] size() equals the serialisation length of an accepted packet");
@@ -438,3 +436,442 @@ fn c04_v311_publish_struct() {
         Err(_) => {}
     }
 }
+
+// ------------------------------------------------------------------ v5.0 acknowledgements
+macro_rules! v5_ack_codec {
+    ($name:ident, $ty:ident, $rcty:ident, $fh:expr) => {
+        #[kani::proof]
+        #[kani::unwind(8)]
+        fn $name() {
+            let id: u16 = kani::any();
+            // shape 1: identifier only
+            let r = v5_0::$ty::<u16>::builder().packet_id(id).build();
+            assert!(r.is_ok() == (id != 0), "[C04] builder enforces a non-zero packet identifier");
+            if let Ok(p) = r {
+                let expect = [$fh, 2, (id >> 8) as u8, id as u8];
+                check_wire(&p, &expect);
+                let (q, used) = v5_0::$ty::<u16>::parse(&expect[2..]).unwrap();
+                assert!(used == 2 && q == p && q.packet_id() == id && q.reason_code().is_none(), "[C02,C03] parse(encode(p)) == p, whole body consumed");
+                core::mem::forget(q);
+                core::mem::forget(p);
+            }
+            // shape 2: identifier + reason code (every defined code)
+            let rcb: u8 = kani::any();
+            if let Ok(rc) = $rcty::try_from(rcb) {
+                kani::assume(id != 0);
+                let p = v5_0::$ty::<u16>::builder().packet_id(id).reason_code(rc).build().unwrap();
+                let expect = [$fh, 3, (id >> 8) as u8, id as u8, rcb];
+                check_wire(&p, &expect);
+                let (q, used) = v5_0::$ty::<u16>::parse(&expect[2..]).unwrap();
+                assert!(used == 3 && q == p && q.reason_code() == Some(rc), "[C02,C03] reason code round trip");
+                core::mem::forget(q);
+                core::mem::forget(p);
+            }
+        }
+    };
+}
+v5_ack_codec!(c02_v5_puback, GenericPuback, PubackReasonCode, 0x40);
+v5_ack_codec!(c02_v5_pubrec, GenericPubrec, PubrecReasonCode, 0x50);
+v5_ack_codec!(c02_v5_pubrel, GenericPubrel, PubrelReasonCode, 0x62);
+v5_ack_codec!(c02_v5_pubcomp, GenericPubcomp, PubcompReasonCode, 0x70);
+
+macro_rules! v5_ack_parse_all {
+    ($name:ident, $ty:ident) => {
+        #[kani::proof]
+        #[kani::unwind(8)]
+        #[kani::stub(core::str::from_utf8, utf8_model)]
+        fn $name() {
+            let b: [u8; 4] = kani::any();
+            let n: usize = kani::any();
+            kani::assume(n <= 4);
+            match v5_0::$ty::<u16>::parse(&b[..n]) {
+                Ok((p, used)) => {
+                    assert!(used <= n, "[C04] consumed bytes never exceed the input");
+                    assert!(p.packet_id() != 0, "[C04] accepted packet has a non-zero identifier");
+                    let enc = p.to_continuous_buffer();
+                    assert!(p.size() == enc.len(), "[C04] size() equals the serialisation length of an accepted packet");
+                    let (q, u2) = v5_0::$ty::<u16>::parse(&enc[2..]).unwrap();
+                    assert!(q == p && u2 == enc.len() - 2, "[C04] re-parsing the re-serialisation yields an equal packet");
+                    core::mem::forget(enc);
+                    core::mem::forget(q);
+                    core::mem::forget(p);
+                }
+                Err(_) => {}
+            }
+        }
+    };
+}
+v5_ack_parse_all!(c04_v5_puback_n4, GenericPuback);
+v5_ack_parse_all!(c04_v5_pubrec_n4, GenericPubrec);
+v5_ack_parse_all!(c04_v5_pubrel_n4, GenericPubrel);
+v5_ack_parse_all!(c04_v5_pubcomp_n4, GenericPubcomp);
+
+// v5.0 SUBACK / UNSUBACK with a non-minimal Property Length (0x80 0x00 = 0 in two bytes)
+#[kani::proof]
+#[kani::unwind(8)]
+#[kani::stub(core::str::from_utf8, utf8_model)]
+fn c04_v5_suback_nonminimal_proplen() {
+    let id: u16 = kani::any();
+    let rc: u8 = kani::any();
+    let body = [(id >> 8) as u8, id as u8, 0x80, 0x00, rc];
+    match v5_0::GenericSuback::<u16>::parse(&body[..]) {
+        Ok((p, used)) => {
+            assert!(used <= 5, "[C04] consumed bytes never exceed the input");
+            let enc = p.to_continuous_buffer();
+            assert!(p.size() == enc.len(), "[C04] size() equals the serialisation length of an accepted packet (non-minimal Property Length)");
+            core::mem::forget(enc);
+            core::mem::forget(p);
+        }
+        Err(_) => {}
+    }
+}
+
+// v5.0 PUBLISH through the builder: no properties, 1-byte topic, 2-byte payload, QoS by shape
+fn v5_publish_shape(qos: u8) {
+    let dup: bool = kani::any();
+    let retain: bool = kani::any();
+    let t: u8 = kani::any();
+    kani::assume(t < 0x80 && t != b'#' && t != b'+' && t != 0);
+    let id: u16 = kani::any();
+    let pl: [u8; 2] = kani::any();
+    let tb = [t];
+    let topic = unsafe { core::str::from_utf8_unchecked(&tb[..]) };
+    let q = match qos {
+        0 => Qos::AtMostOnce,
+        1 => Qos::AtLeastOnce,
+        _ => Qos::ExactlyOnce,
+    };
+    let mut bld = v5_0::GenericPublish::<u16>::builder().topic_name(topic).unwrap().qos(q).retain(retain).payload(&pl[..]);
+    if qos > 0 {
+        bld = bld.packet_id(id);
+        if dup {
+            bld = bld.dup(true);
+        }
+    }
+    let r = bld.build();
+    if qos > 0 && id == 0 {
+        assert!(r.is_err(), "[C04] builder refuses packet identifier 0 for QoS>0");
+        return;
+    }
+    let p = r.unwrap();
+    let fh = 0x30 | ((dup && qos > 0) as u8) << 3 | qos << 1 | retain as u8;
+    if qos == 0 {
+        let expect = [fh, 6, 0, 1, t, 0, pl[0], pl[1]];
+        check_wire(&p, &expect);
+        let arc: Arc<[u8]> = Arc::from(&expect[2..]);
+        let (q2, used) = v5_0::GenericPublish::<u16>::parse(fh & 0x0f, arc).unwrap();
+        assert!(used == 6 && q2 == p && q2.packet_id().is_none() && q2.qos() == q && q2.retain() == retain, "[C02,C03] v5 PUBLISH QoS0 round trip");
+        core::mem::forget(q2);
+    } else {
+        let expect = [fh, 8, 0, 1, t, (id >> 8) as u8, id as u8, 0, pl[0], pl[1]];
+        check_wire(&p, &expect);
+        let arc: Arc<[u8]> = Arc::from(&expect[2..]);
+        let (q2, used) = v5_0::GenericPublish::<u16>::parse(fh & 0x0f, arc).unwrap();
+        assert!(used == 8 && q2 == p && q2.packet_id() == Some(id) && q2.qos() == q && q2.dup() == dup && q2.retain() == retain, "[C02,C03] v5 PUBLISH QoS>0 round trip");
+        let pay = q2.payload().as_slice();
+        assert!(pay.len() == 2 && pay[0] == pl[0] && pay[1] == pl[1], "[C03] PUBLISH payload");
+        core::mem::forget(q2);
+    }
+    core::mem::forget(p);
+}
+#[kani::proof]
+#[kani::unwind(10)]
+#[kani::stub(core::str::from_utf8, utf8_model)]
+fn c02_v5_publish_q0() {
+    v5_publish_shape(0)
+}
+#[kani::proof]
+#[kani::unwind(10)]
+#[kani::stub(core::str::from_utf8, utf8_model)]
+fn c02_v5_publish_q1() {
+    v5_publish_shape(1)
+}
+
+// v5.0 PUBLISH parser on a structured symbolic body, incl. the property length byte
+#[kani::proof]
+#[kani::unwind(10)]
+#[kani::stub(core::str::from_utf8, utf8_model)]
+fn c04_v5_publish_struct() {
+    let flags: u8 = kani::any();
+    kani::assume(flags <= 0x0f);
+    let x: [u8; 3] = kani::any();
+    let n: usize = kani::any();
+    kani::assume(n >= 3 && n <= 6);
+    // [0,1,t, idhi, idlo, proplen=0] truncated to n bytes
+    let body = [0u8, 1, x[0], x[1], x[2], 0];
+    let arc: Arc<[u8]> = if n == 3 {
+        Arc::from(&body[..3])
+    } else if n == 4 {
+        Arc::from(&body[..4])
+    } else if n == 5 {
+        Arc::from(&body[..5])
+    } else {
+        Arc::from(&body[..6])
+    };
+    match v5_0::GenericPublish::<u16>::parse(flags, arc) {
+        Ok((p, used)) => {
+            assert!(used <= n, "[C04] consumed bytes never exceed the input");
+            let qos = (flags >> 1) & 3;
+            assert!(qos <= 2, "[C04] accepted PUBLISH has QoS 0..2");
+            if qos > 0 {
+                assert!(p.packet_id() != Some(0), "[C04] accepted PUBLISH with QoS>0 has a non-zero packet identifier");
+                assert!(n == 6, "[C04] a v5.0 PUBLISH without its Property Length byte is not accepted");
+            } else {
+                assert!(n >= 4, "[C04] a v5.0 PUBLISH without its Property Length byte is not accepted");
+            }
+            let enc = p.to_continuous_buffer();
+            assert!(p.size() == enc.len(), "[C04] size() equals the serialisation length of an accepted packet");
+            core::mem::forget(enc);
+            core::mem::forget(p);
+        }
+        Err(_) => {}
+    }
+}
+
+// v5.0 CONNACK / DISCONNECT / AUTH without properties
+#[kani::proof]
+#[kani::unwind(8)]
+#[kani::stub(core::str::from_utf8, utf8_model)]
+fn c02_v5_connack_disconnect_auth() {
+    let sp: bool = kani::any();
+    let rcb: u8 = kani::any();
+    if let Ok(rc) = ConnectReasonCode::try_from(rcb) {
+        let r = v5_0::Connack::builder().session_present(sp).reason_code(rc).build();
+        if let Ok(p) = r {
+            let expect = [0x20, 3, sp as u8, rcb, 0];
+            check_wire(&p, &expect);
+            let (q, used) = v5_0::Connack::parse(&expect[2..]).unwrap();
+            assert!(used == 3 && q == p && q.session_present() == sp && q.reason_code() == rc, "[C02,C03] v5 CONNACK round trip");
+            core::mem::forget(q);
+            core::mem::forget(p);
+        }
+    }
+    if let Ok(rc) = DisconnectReasonCode::try_from(rcb) {
+        let p = v5_0::Disconnect::builder().reason_code(rc).build().unwrap();
+        let expect = [0xE0, 1, rcb];
+        check_wire(&p, &expect);
+        let (q, used) = v5_0::Disconnect::parse(&expect[2..]).unwrap();
+        assert!(used == 1 && q == p && q.reason_code() == Some(rc), "[C02,C03] v5 DISCONNECT round trip");
+        core::mem::forget(q);
+        core::mem::forget(p);
+    }
+    let p = v5_0::Disconnect::builder().build().unwrap();
+    check_wire(&p, &[0xE0, 0]);
+    core::mem::forget(p);
+    let p = v5_0::Auth::builder().build().unwrap();
+    check_wire(&p, &[0xF0, 0]);
+    core::mem::forget(p);
+}
+
+// reason-code / identifier tables against the specification (numeric values, all u8)
+#[kani::proof]
+#[kani::unwind(4)]
+fn c03_numeric_tables() {
+    let b: u8 = kani::any();
+    // MQTT v5.0 2.2.2.2: property identifiers
+    let is_prop = matches!(b, 1 | 2 | 3 | 8 | 9 | 11 | 17 | 18 | 19 | 21 | 22 | 23 | 24 | 25 | 26 | 28 | 31 | 33 | 34 | 35 | 36 | 37 | 38 | 39 | 40 | 41 | 42);
+    match crate::mqtt::packet::PropertyId::try_from(b) {
+        Ok(p) => assert!(is_prop && p.as_u8() == b, "[C03] property identifiers per MQTT v5.0 table 2-4"),
+        Err(_) => assert!(!is_prop, "[C03] every specified property identifier is known"),
+    }
+    // MQTT v5.0 3.4.2.1 PUBACK / 3.5.2.1 PUBREC reason codes
+    let is_puback = matches!(b, 0x00 | 0x10 | 0x80 | 0x83 | 0x87 | 0x90 | 0x91 | 0x97 | 0x99);
+    assert!(PubackReasonCode::try_from(b).is_ok() == is_puback, "[C03] PUBACK reason codes per specification");
+    assert!(PubrecReasonCode::try_from(b).is_ok() == is_puback, "[C03] PUBREC reason codes per specification");
+    if let Ok(r) = PubackReasonCode::try_from(b) {
+        assert!(r as u8 == b, "[C03] PUBACK reason code value");
+    }
+    // 3.6.2.1 PUBREL / 3.7.2.1 PUBCOMP
+    let is_pubrel = matches!(b, 0x00 | 0x92);
+    assert!(PubrelReasonCode::try_from(b).is_ok() == is_pubrel && PubcompReasonCode::try_from(b).is_ok() == is_pubrel, "[C03] PUBREL/PUBCOMP reason codes per specification");
+    // 3.2.2.2 CONNACK reason codes
+    let is_connack = matches!(b, 0x00 | 0x80 | 0x81 | 0x82 | 0x83 | 0x84 | 0x85 | 0x86 | 0x87 | 0x88 | 0x89 | 0x8A | 0x8C | 0x90 | 0x95 | 0x97 | 0x99 | 0x9A | 0x9B | 0x9C | 0x9D | 0x9F);
+    assert!(ConnectReasonCode::try_from(b).is_ok() == is_connack, "[C03] CONNACK reason codes per specification");
+    // 3.14.2.1 DISCONNECT reason codes
+    let is_disc = matches!(b, 0x00 | 0x04 | 0x80 | 0x81 | 0x82 | 0x83 | 0x87 | 0x89 | 0x8B | 0x8D | 0x8E | 0x8F | 0x90 | 0x93 | 0x94 | 0x95 | 0x96 | 0x97 | 0x98 | 0x99 | 0x9A | 0x9B | 0x9C | 0x9D | 0x9E | 0x9F | 0xA0 | 0xA1 | 0xA2);
+    assert!(DisconnectReasonCode::try_from(b).is_ok() == is_disc, "[C03] DISCONNECT reason codes per specification");
+    // 3.9.3 SUBACK / 3.11.3 UNSUBACK / 3.15.2.1 AUTH
+    let is_suback = matches!(b, 0x00 | 0x01 | 0x02 | 0x80 | 0x83 | 0x87 | 0x8F | 0x91 | 0x97 | 0x9E | 0xA1 | 0xA2);
+    assert!(SubackReasonCode::try_from(b).is_ok() == is_suback, "[C03] SUBACK reason codes per specification");
+    let is_unsuback = matches!(b, 0x00 | 0x11 | 0x80 | 0x83 | 0x87 | 0x8F | 0x91);
+    assert!(UnsubackReasonCode::try_from(b).is_ok() == is_unsuback, "[C03] UNSUBACK reason codes per specification");
+    let is_auth = matches!(b, 0x00 | 0x18 | 0x19);
+    assert!(AuthReasonCode::try_from(b).is_ok() == is_auth, "[C03] AUTH reason codes per specification");
+    // v3.1.1 3.9.3 SUBACK return codes, 3.2.2.3 CONNACK return codes
+    assert!(SubackReturnCode::try_from(b).is_ok() == matches!(b, 0 | 1 | 2 | 0x80), "[C03] v3.1.1 SUBACK return codes");
+    assert!(ConnectReturnCode::try_from(b).is_ok() == (b <= 5), "[C03] v3.1.1 CONNACK return codes");
+    // QoS
+    assert!(Qos::try_from(b).is_ok() == (b <= 2), "[C03] QoS values 0..2");
+}
+
+// ------------------------------------------------------------------ truncations and structured bodies of the string-carrying packets
+// Every prefix of a structured body (lengths concrete, all other bytes symbolic) is parsed: no panic, no
+// out-of-bounds read, consumed <= given; the complete body is accepted with a consistent size().
+macro_rules! prefixes {
+    ($body:expr, $n:expr, $parse:expr, $check_full:expr) => {{
+        let body = $body;
+        let mut k = 0;
+        while k <= $n {
+            let r = $parse(&body[..k]);
+            match r {
+                Ok((p, used)) => {
+                    assert!(used <= k, "[C04] consumed bytes never exceed the input");
+                    let enc = p.to_continuous_buffer();
+                    assert!(p.size() == enc.len(), "[C04] size() equals the serialisation length of an accepted packet");
+                    if k == $n {
+                        $check_full(&p, used);
+                    }
+                    core::mem::forget(enc);
+                    core::mem::forget(p);
+                }
+                Err(_) => {
+                    assert!(k < $n, "[C03] a specification-conformant encoding is accepted");
+                }
+            }
+            k += 1;
+        }
+    }};
+}
+
+fn ascii(x: u8) -> u8 {
+    // a printable ASCII byte that is neither a wildcard nor NUL
+    let c = 0x30 + (x % 64);
+    c
+}
+
+// v3.1.1 CONNECT: [0,4,'MQTT',4,flags,ka,ka, 0,1,c] (+ user name / password by flags = 0xC2)
+#[kani::proof]
+#[kani::unwind(20)]
+#[kani::stub(core::str::from_utf8, utf8_model)]
+fn c04_v311_connect_prefixes() {
+    let x: [u8; 6] = kani::any();
+    let clean: bool = kani::any();
+    // no credentials
+    let b1: [u8; 13] = [0, 4, b'M', b'Q', b'T', b'T', 4, (clean as u8) << 1, x[0], x[1], 0, 1, ascii(x[2])];
+    prefixes!(b1, 13, |d: &[u8]| v3_1_1::Connect::parse(d), |p: &v3_1_1::Connect, used: usize| {
+        assert!(used == 13 && p.keep_alive() == ((x[0] as u16) << 8 | x[1] as u16) && p.clean_session() == clean, "[C03] CONNECT accessors return the encoded values");
+        assert!(p.client_id().as_bytes()[0] == ascii(x[2]) && p.user_name().is_none() && p.password().is_none(), "[C03] CONNECT payload fields");
+    });
+    // user name and password present
+    let b2: [u8; 19] = [0, 4, b'M', b'Q', b'T', b'T', 4, 0xC2, x[0], x[1], 0, 1, ascii(x[2]), 0, 1, ascii(x[3]), 0, 1, x[4]];
+    prefixes!(b2, 19, |d: &[u8]| v3_1_1::Connect::parse(d), |p: &v3_1_1::Connect, used: usize| {
+        assert!(used == 19 && p.user_name().map(|s| s.as_bytes()[0]) == Some(ascii(x[3])) && p.password().map(|s| s[0]) == Some(x[4]), "[C03] CONNECT credentials");
+    });
+}
+
+// v5.0 CONNECT without properties: [0,4,'MQTT',5,flags,ka,ka,0, 0,1,c]
+#[kani::proof]
+#[kani::unwind(20)]
+#[kani::stub(core::str::from_utf8, utf8_model)]
+fn c04_v5_connect_prefixes() {
+    let x: [u8; 3] = kani::any();
+    let clean: bool = kani::any();
+    let b1: [u8; 14] = [0, 4, b'M', b'Q', b'T', b'T', 5, (clean as u8) << 1, x[0], x[1], 0, 0, 1, ascii(x[2])];
+    prefixes!(b1, 14, |d: &[u8]| v5_0::Connect::parse(d), |p: &v5_0::Connect, used: usize| {
+        assert!(used == 14 && p.keep_alive() == ((x[0] as u16) << 8 | x[1] as u16) && p.clean_start() == clean, "[C03] v5 CONNECT accessors return the encoded values");
+    });
+}
+
+// SUBSCRIBE v3.1.1 [id, 0,1,t, opts] and v5.0 [id, 0, 0,1,t, opts]; UNSUBSCRIBE; SUBACK; UNSUBACK
+#[kani::proof]
+#[kani::unwind(12)]
+#[kani::stub(core::str::from_utf8, utf8_model)]
+fn c04_subscribe_family_prefixes() {
+    let x: [u8; 4] = kani::any();
+    kani::assume(x[0] != 0 || x[1] != 0);
+    let qos = x[3] % 3;
+    let b: [u8; 6] = [x[0], x[1], 0, 1, ascii(x[2]), qos];
+    prefixes!(b, 6, |d: &[u8]| v3_1_1::GenericSubscribe::<u16>::parse(d), |p: &v3_1_1::GenericSubscribe<u16>, used: usize| {
+        assert!(used == 6 && p.packet_id() == ((x[0] as u16) << 8 | x[1] as u16), "[C03] SUBSCRIBE identifier");
+    });
+    let b: [u8; 7] = [x[0], x[1], 0, 0, 1, ascii(x[2]), qos];
+    prefixes!(b, 7, |d: &[u8]| v5_0::GenericSubscribe::<u16>::parse(d), |p: &v5_0::GenericSubscribe<u16>, used: usize| {
+        assert!(used == 7 && p.packet_id() == ((x[0] as u16) << 8 | x[1] as u16), "[C03] v5 SUBSCRIBE identifier");
+    });
+    let b: [u8; 5] = [x[0], x[1], 0, 1, ascii(x[2])];
+    prefixes!(b, 5, |d: &[u8]| v3_1_1::GenericUnsubscribe::<u16>::parse(d), |p: &v3_1_1::GenericUnsubscribe<u16>, used: usize| {
+        assert!(used == 5 && p.packet_id() == ((x[0] as u16) << 8 | x[1] as u16), "[C03] UNSUBSCRIBE identifier");
+    });
+    let b: [u8; 6] = [x[0], x[1], 0, 0, 1, ascii(x[2])];
+    prefixes!(b, 6, |d: &[u8]| v5_0::GenericUnsubscribe::<u16>::parse(d), |p: &v5_0::GenericUnsubscribe<u16>, used: usize| {
+        assert!(used == 6 && p.packet_id() == ((x[0] as u16) << 8 | x[1] as u16), "[C03] v5 UNSUBSCRIBE identifier");
+    });
+}
+
+#[kani::proof]
+#[kani::unwind(12)]
+#[kani::stub(core::str::from_utf8, utf8_model)]
+fn c04_suback_family_prefixes() {
+    let x: [u8; 3] = kani::any();
+    kani::assume(x[0] != 0 || x[1] != 0);
+    let rc = if x[2] % 4 == 3 { 0x80 } else { x[2] % 4 };
+    let b: [u8; 3] = [x[0], x[1], rc];
+    prefixes!(b, 3, |d: &[u8]| v3_1_1::GenericSuback::<u16>::parse(d), |p: &v3_1_1::GenericSuback<u16>, used: usize| {
+        assert!(used == 3 && p.packet_id() == ((x[0] as u16) << 8 | x[1] as u16), "[C03] SUBACK identifier");
+    });
+    let b: [u8; 4] = [x[0], x[1], 0, rc];
+    prefixes!(b, 4, |d: &[u8]| v5_0::GenericSuback::<u16>::parse(d), |p: &v5_0::GenericSuback<u16>, used: usize| {
+        assert!(used == 4 && p.packet_id() == ((x[0] as u16) << 8 | x[1] as u16), "[C03] v5 SUBACK identifier");
+    });
+    let b: [u8; 4] = [x[0], x[1], 0, if x[2] & 1 == 0 { 0 } else { 0x11 }];
+    prefixes!(b, 4, |d: &[u8]| v5_0::GenericUnsuback::<u16>::parse(d), |p: &v5_0::GenericUnsuback<u16>, used: usize| {
+        assert!(used == 4 && p.packet_id() == ((x[0] as u16) << 8 | x[1] as u16), "[C03] v5 UNSUBACK identifier");
+    });
+}
+
+// ------------------------------------------------------------------ property section on both sides of the 127/128 boundary
+// v5.0 acknowledgement with reason code and one Reason String of L bytes: property section = 3 + L bytes.
+// L = 124 -> 127 (one-byte Property Length), L = 125 -> 128 (two-byte Property Length).
+macro_rules! v5_ack_long_props {
+    ($name:ident, $ty:ident, $rcty:ident, $fh:expr, $l:expr) => {
+        #[kani::proof]
+        #[kani::unwind(140)]
+        #[kani::stub(core::str::from_utf8, utf8_model)]
+        fn $name() {
+            const L: usize = $l;
+            let id: u16 = kani::any();
+            kani::assume(id != 0);
+            let first: u8 = kani::any();
+            let last: u8 = kani::any();
+            kani::assume(first >= 0x20 && first < 0x7f && last >= 0x20 && last < 0x7f);
+            let mut sb = [b'a'; L];
+            sb[0] = first;
+            sb[L - 1] = last;
+            let st = unsafe { core::str::from_utf8_unchecked(&sb[..]) };
+            let props = alloc::vec![Property::ReasonString(crate::mqtt::packet::ReasonString::new(st).unwrap())];
+            let p = v5_0::$ty::<u16>::builder().packet_id(id).reason_code($rcty::Success).props(props).build().unwrap();
+            let plen = 3 + L; // identifier byte + two length bytes + L
+            let plen_bytes = if plen < 128 { 1 } else { 2 };
+            let rl = 2 + 1 + plen_bytes + plen;
+            let rl_bytes = if rl < 128 { 1 } else { 2 };
+            let total = 1 + rl_bytes + rl;
+            assert!(p.size() == total, "[C02] size() of a packet whose property section is at the 127/128 boundary");
+            let enc = p.to_continuous_buffer();
+            assert!(enc.len() == total, "[C02] contiguous serialisation length at the boundary");
+            assert!(enc[0] == $fh, "[C03] fixed header");
+            let body = &enc[1 + rl_bytes..];
+            // Remaining Length field decodes to the body length
+            let rlv = if rl_bytes == 1 { enc[1] as usize } else { (enc[1] & 0x7f) as usize + 128 * enc[2] as usize };
+            assert!(rlv == body.len() && rlv == rl, "[C02] Remaining Length on the wire equals the body length");
+            // Property Length field
+            let pl = if plen_bytes == 1 { body[3] as usize } else { (body[3] & 0x7f) as usize + 128 * body[4] as usize };
+            assert!(pl == plen, "[C03] Property Length equals the length of the property section");
+            assert!(body[3 + plen_bytes] == 31 && body[3 + plen_bytes + 3] == first && body[body.len() - 1] == last, "[C03] Reason String property bytes");
+            let (q, used) = v5_0::$ty::<u16>::parse(body).unwrap();
+            assert!(used == body.len(), "[C02] parse consumes exactly the body");
+            assert!(q.size() == total, "[C02] parsed packet reports the same size");
+            let enc2 = q.to_continuous_buffer();
+            assert!(enc2.len() == total && enc2[1] == enc[1] && enc2[2] == enc[2], "[C02] parsed packet re-serialises with the same Remaining Length");
+            assert!(q == p, "[C02] parse(encode(p)) == p at the boundary");
+            core::mem::forget(enc);
+            core::mem::forget(enc2);
+            core::mem::forget(q);
+            core::mem::forget(p);
+        }
+    };
+}
+v5_ack_long_props!(c02_v5_puback_props127, GenericPuback, PubackReasonCode, 0x40, 124);
+v5_ack_long_props!(c02_v5_puback_props128, GenericPuback, PubackReasonCode, 0x40, 125);
+v5_ack_long_props!(c02_v5_pubrec_props128, GenericPubrec, PubrecReasonCode, 0x50, 125);
+v5_ack_long_props!(c02_v5_pubrel_props128, GenericPubrel, PubrelReasonCode, 0x62, 125);
+v5_ack_long_props!(c02_v5_pubcomp_props128, GenericPubcomp, PubcompReasonCode, 0x70, 125);
